@@ -84,3 +84,46 @@ pub fn gen() {
     println!("def tagOrder : List (String × Int) := [{}]", order.join(", "));
     println!("end Servlin.Gen");
 }
+
+/// `Gen/HeadTable.lean`: see `Props/HeadTable.lean`.  Numbers are plain `Nat` literals (cheap to elaborate); one table per
+/// position class: `(bytes before, bytes after)` and a row `(byte, outcome code, method, fields, bytes left)` per byte value.
+pub fn gen_head() {
+    println!("/- GENERATED on every run by `svharness headtab gen` by executing /repo's code. Do not edit. -/");
+    println!("namespace Servlin.Gen");
+    // `Head::try_read` on every byte value at every position class of a request head (method, target, version, field name,
+    // inside / at the edges of a field value, line ends): outcome, parsed method and fields, bytes left in the buffer
+    let shapes: Vec<(&[u8], &[u8])> = vec![
+        (b"", b" / HTTP/1.1\r\n\r\n"), (b"G", b"T / HTTP/1.1\r\n\r\n"), (b"GET /a", b"c HTTP/1.1\r\n\r\n"), (b"GET ", b" HTTP/1.1\r\n\r\n"),
+        (b"GET / HTTP/1.", b"\r\n\r\n"), (b"GET / ", b"TTP/1.1\r\n\r\n"), (b"GET / HTTP/1.1\r\nn", b"m: v\r\n\r\n"), (b"GET / HTTP/1.1\r\n", b": v\r\n\r\n"),
+        (b"GET / HTTP/1.1\r\nn", b" v\r\n\r\n"), (b"GET / HTTP/1.1\r\nn: a", b"c\r\n\r\n"), (b"GET / HTTP/1.1\r\nn: ", b"c\r\n\r\n"), (b"GET / HTTP/1.1\r\nn: a", b"\r\n\r\n"),
+        (b"GET / HTTP/1.1\r\nn:", b"\r\nm: w\r\n\r\n"), (b"GET / HTTP/1.1", b"\nn: v\r\n\r\nREST"), (b"GET / HTTP/1.1\r\nn: v\r", b"\r\n\r\nREST"), (b"GET / HTTP/1.1\r\nn: v\r\n", b"\n\r\n\r\nR"),
+    ];
+    println!("/-- outcome codes: 0 = parsed, then the variants of `HeadError` in declaration order, 7 = panic -/");
+    println!("def headErrCodes : List String := [\"\", \"Truncated\", \"MissingRequestLine\", \"MalformedRequestLine\", \"MalformedPath\", \"UnsupportedProtocol\", \"MalformedHeader\", \"PANIC\"]");
+    let names = ["", "Truncated", "MissingRequestLine", "MalformedRequestLine", "MalformedPath", "UnsupportedProtocol", "MalformedHeader", "PANIC"];
+    for (si, (pre, post)) in shapes.iter().enumerate() {
+        let mut rows = Vec::new();
+        for b in 0u16..=255 {
+            let probe: Vec<u8> = [*pre, &[b as u8][..], *post].concat();
+            let mut buf: fixed_buffer::FixedBuf<256> = fixed_buffer::FixedBuf::new();
+            buf.write_bytes(&probe).expect("probe fits");
+            let out = std::panic::catch_unwind(std::panic::AssertUnwindSafe(|| servlin::internal::Head::try_read(&mut buf)));
+            let left = buf.len();
+            let (err, method, fields) = match out {
+                Err(_) => ("PANIC".to_string(), Vec::new(), Vec::new()),
+                Ok(Err(e)) => (format!("{e:?}"), Vec::new(), Vec::new()),
+                Ok(Ok(h)) => (String::new(), h.method.as_bytes().to_vec(), h.headers.iter().map(|f| (f.name.as_bytes().to_vec(), f.value.as_bytes().to_vec())).collect::<Vec<_>>()),
+            };
+            let code = names.iter().position(|n| *n == err).expect("error name");
+            let fs: Vec<String> = fields.iter().map(|(n, v)| format!("({}, {})", lean_bytes(n), lean_bytes(v))).collect();
+            rows.push(format!("({b}, {code}, {}, [{}], {left})", lean_bytes(&method), fs.join(", ")));
+        }
+        println!("def headShape{si} : List Nat × List Nat := ({}, {})", lean_bytes(pre), lean_bytes(post));
+        println!("set_option maxRecDepth 100000 in");
+        println!("def headRows{si} : List (Nat × Nat × List Nat × List (List Nat × List Nat) × Nat) := [\n  {}]", rows.join(",\n  "));
+    }
+    println!("/-- one table per position class; each has a row for every byte value -/");
+    println!("def headByteTables : List ((List Nat × List Nat) × List (Nat × Nat × List Nat × List (List Nat × List Nat) × Nat)) := [{}]",
+        (0..shapes.len()).map(|i| format!("(headShape{i}, headRows{i})")).collect::<Vec<_>>().join(", "));
+    println!("end Servlin.Gen");
+}
